@@ -1319,29 +1319,24 @@ class Bits:
         new_slice = bitstring.bitstore.offset_slice_indices_lsb0(slice(start, end, None), len(self))
         msb0_start, msb0_end = self._validate_slice(new_slice.start, new_slice.stop)
 
-        # Search chunks starting near the end and then moving back.
+        # Search chunks starting near the end and then moving back. Matches start in [chunk_start, chunk_end - len(bs)],
+        # and consecutive chunks are arranged so that every start position is covered exactly once.
         c = 0
         increment = max(8192, len(bs) * 80)
-        buffersize = min(increment + len(bs), msb0_end - msb0_start)
-        pos = max(msb0_start, msb0_end - buffersize)
-        while True:
-            found = list(self._findall_msb0(bs, start=pos, end=pos + buffersize, count=None, bytealigned=False))
-            if not found:
-                if pos == msb0_start:
-                    return
-                pos = max(msb0_start, pos - increment)
-                continue
+        chunk_end = msb0_end
+        while chunk_end - msb0_start >= len(bs):
+            chunk_start = max(msb0_start, chunk_end - increment - len(bs) + 1)
+            found = list(self._findall_msb0(bs, start=chunk_start, end=chunk_end, count=None, bytealigned=False))
             while found:
-                if count is not None and c >= count:
-                    return
-                c += 1
                 lsb0_pos = len(self) - found.pop() - len(bs)
                 if not bytealigned or lsb0_pos % 8 == 0:
+                    if count is not None and c >= count:
+                        return
+                    c += 1
                     yield lsb0_pos
-
-            pos = max(msb0_start, pos - increment)
-            if pos == msb0_start:
+            if chunk_start == msb0_start:
                 return
+            chunk_end = chunk_start + len(bs) - 1
 
     def rfind(self, bs: BitsType, /, start: Optional[int] = None, end: Optional[int] = None,
               bytealigned: Optional[bool] = None) -> Union[Tuple[int], Tuple[()]]:
